@@ -927,6 +927,8 @@ class StubsStringGenerator:
             return ""
 
         full_docstring = self._create_docstring_description_part(description, indentations)
+        # The text must not close the comment
+        full_docstring = full_docstring.replace("*/", "*\\/")
         return f"{indentations}/**\n{indentations} * {full_docstring}{indentations} */\n"
 
     def _create_sds_docstring(
@@ -1013,6 +1015,8 @@ class StubsStringGenerator:
 
         # Open and close the docstring
         if full_docstring:
+            # The text must not close the comment
+            full_docstring = full_docstring.replace("*/", "*\\/")
             full_docstring = f"{indentations}/**\n{full_docstring}{indentations} */\n"
 
         return full_docstring
